@@ -43,6 +43,18 @@ fn build_wrapped_loop_choice_block(
     // Build continuation g-N.
     let g_name = format!("g-{}", *next_choice_index);
     let continuation_path_abs = joined_path(&outer_path, &g_name);
+    // the label pre-scan assumed these containers directly under `scope.path`
+    {
+        let mut relocated = context.relocated_containers.borrow_mut();
+        relocated.push((
+            joined_path(&scope.path, loop_label),
+            choices_prefix.clone(),
+        ));
+        relocated.push((
+            joined_path(&scope.path, &g_name),
+            continuation_path_abs.clone(),
+        ));
+    }
     let continuation_scope = scope.at_path(continuation_path_abs.clone());
     let continuation_body = match continuation.first() {
         Some(Node::GatherPoint) => &continuation[1..],
